@@ -106,6 +106,8 @@ struct Task {
     bool preemptible;
     long countdown;
     u64 ticks_in_quantum;
+    int locks_held;                 // locks of the library held by this task (accesses under a lock are synchronised)
+    bool blocked;                   // yielded because a lock of the library is held by another task
     u64 edges_call;                 // edges inside the current API call
     u64 edges_total;
     OpRec* cur;                     // record of the operation in flight
